@@ -32,6 +32,7 @@ type Profile struct {
 	Avoid      map[string]bool
 	SchedKinds []string
 	MaxDevs    int
+	RaceProb   int // percent of programs reshaped into "set-up, barrier, short racers" (0 = default 30, <0 = never)
 }
 
 func pick[T any](t *rapid.T, label string, xs []T) T {
@@ -334,7 +335,59 @@ func genProgram(t *rapid.T, prop string, pf *Profile, thorough bool) *Case {
 		c.Clients = append(c.Clients, ops)
 	}
 	c.Sched = genSched(t, pf, thorough)
+	rp := pf.RaceProb
+	if rp == 0 {
+		rp = 30
+	}
+	if pct(t, "race", rp) {
+		raceify(t, c)
+	}
 	return c
+}
+
+// raceify reshapes a program into a race experiment: every client keeps a short set-up prefix, then
+// all meet at a barrier (the last client settles first, so the set-up has taken effect), then each
+// runs one to three operations. The schedule is the base schedule with one to three deviations
+// placed uniformly over the choice points the episode really has ("devu", resolved by RunCase).
+func raceify(t *rapid.T, c *Case) {
+	last := -1
+	for ci := range c.Clients {
+		if len(c.Clients[ci]) > 0 {
+			last = ci
+		}
+	}
+	if last < 0 {
+		return
+	}
+	for ci, ops := range c.Clients {
+		if len(ops) == 0 {
+			continue
+		}
+		m := len(ops)
+		if m > 3 {
+			m = 3
+		}
+		pos := rapid.IntRange(0, m).Draw(t, "setup")
+		if pos == len(ops) {
+			pos = len(ops) - 1
+		}
+		end := pos + rapid.IntRange(1, 3).Draw(t, "racers")
+		if end > len(ops) {
+			end = len(ops)
+		}
+		n := append([]Op{}, ops[:pos]...)
+		if ci == last {
+			n = append(n, Op{Op: "settle"})
+		}
+		n = append(n, Op{Op: "barrier"})
+		n = append(n, ops[pos:end]...)
+		c.Clients[ci] = n
+	}
+	sc := Sched{Strategy: "devu"}
+	for i := 0; i < rapid.IntRange(1, 3).Draw(t, "ndevu"); i++ {
+		sc.Devs = append(sc.Devs, [2]int{rapid.IntRange(0, 999).Draw(t, "where"), rapid.IntRange(0, 3).Draw(t, "alt")})
+	}
+	c.Sched = sc
 }
 
 func itoa(n int) string {
